@@ -107,6 +107,13 @@ pub unsafe fn raw_close(fd: i32) -> i32 {
 
 fn record(l: &mut Ledger, fd: i32, how: How) -> bool {
     // Returns true if the close should be forwarded to the OS.
+    if (3000..4096).contains(&fd) && !l.fds.contains_key(&fd) {
+        l.violations.push(FdViolation {
+            sig: "direct-closed-as-regular:close(2)".into(),
+            detail: format!("close({fd}) ({how:?}): {fd} is a direct descriptor index, not a regular descriptor"),
+        });
+        return false;
+    }
     if (0..=2).contains(&fd) {
         l.violations.push(FdViolation {
             sig: format!("std-stream-closed:fd={fd}"),
@@ -161,7 +168,7 @@ pub extern "C" fn close(fd: libc::c_int) -> libc::c_int {
     let forward = match LEDGER.try_lock() {
         Ok(mut guard) => match guard.as_mut() {
             Some(l) => {
-                if l.fds.contains_key(&fd) || (0..=2).contains(&fd) {
+                if l.fds.contains_key(&fd) || (0..=2).contains(&fd) || (3000..4096).contains(&fd) {
                     let _g = MonGuard::new();
                     record(l, fd, How::Sync)
                 } else {
